@@ -555,6 +555,43 @@ func classifyLost(items []item, lost []bool, family string, v view) []string {
 			}
 		}
 	}
+	// (a') the line detector's tolerance adapts to the page (down to 0.15 units on pages with compressed coordinates), so
+	// its lines can be finer than the visual runs above: fragments on one and the same baseline (within 0.15) that are
+	// all lost and together narrower than the minimum line width are explained as well.
+	if hasLine {
+		tight := newUF(n)
+		for a := 0; a < n; a++ {
+			for b := a + 1; b < n; b++ {
+				if math.Abs(items[a].y-items[b].y) <= 0.15 {
+					tight.join(a, b)
+				}
+			}
+		}
+		tm := map[int][]int{}
+		for a := 0; a < n; a++ {
+			tm[tight.find(a)] = append(tm[tight.find(a)], a)
+		}
+		for _, ids := range tm {
+			all, open := true, false
+			for _, a := range ids {
+				if (!lost[a] && !uncertain[a]) || inPara[a] {
+					all = false
+				}
+				if lost[a] && !explained[a] {
+					open = true
+				}
+			}
+			if !all || !open {
+				continue
+			}
+			if x0, _, x1, _ := extent(items, ids); x1-x0 < pinMinLineWidth {
+				for _, a := range ids {
+					explained[a] = true
+				}
+				classes["line-narrower-than-5pt"] = true
+			}
+		}
+	}
 	// (b) a whole detected column narrower than the minimum column width. The column regions are recomputed here
 	// from the fragments the detector was given, with the pinned constants of ColumnDetector.findVerticalGaps
 	// (5pt buckets, valley = density below 20% of the average, at least 20pt wide, at most 5 gaps): a region runs
